@@ -11,6 +11,7 @@ G6  read-set of every public accessor vs the accessor table; compound accessors 
 G7  plain accessors have no panic edge at all
 """
 from .. import an
+from . import c03
 from .. import select as SEL
 from .. import chain as CH
 from .. import guard as G
@@ -107,8 +108,7 @@ def run(ctx):
         if sel is not None:
             payload = fld(deref(fld(deref(arg(1)), 0)), 1)
             it = SEL.canon_place(SEL.unref(sel["iter"]))
-            it_ok = it[0] == "aggr" and it[1][:3] == ("adt", "multiboot2_common::iter::TagIter", "TagIter") and it[2][0] == ("c", 0) and \
-                SEL.canon_place(SEL.unref(it[2][1])) == SEL.canon_place(payload)
+            it_ok = c03.tagiter_fresh(it, payload, canon=lambda x: SEL.canon_place(SEL.unref(x)))
             typ0 = fld(fld(fld(deref(SEL.ELEM), 0), 0), 0)          # tag.header().typ.0
             typ = fld(fld(deref(SEL.ELEM), 0), 0)                    # tag.header().typ
             sides = SEL.eq_sides(sel["pred"])
@@ -455,7 +455,10 @@ def buffer_type(ctx, F, fbt):
             if st["k"] == "assign" and st["rv"]["k"] == "aggr" and st["rv"].get("adt_name") == "Reader":
                 v = N(A.tb.rvalue(st["rv"], (bb, si), st))
                 ok_rd = len(v[2]) >= 2 and v[2][0] == ("ref", fld(me, tail_i)) and v[2][1] == ("c", 0)
-    ctx.check(ok_rd or any(r[0] == "aggr" and len(r[2]) >= 2 and r[2][0] == ("ref", fld(me, tail_i)) and r[2][1] == ("c", 0) for r in rd), "G6", "buffer_type:reader",
+                # cursor representation: the reader is just the not yet consumed rest, initially the whole variable part
+                ok_rd = ok_rd or (len(v[2]) == 1 and v[2][0] == ("ref", fld(me, tail_i)))
+    ctx.check(ok_rd or any(r[0] == "aggr" and (len(r[2]) >= 2 and r[2][0] == ("ref", fld(me, tail_i)) and r[2][1] == ("c", 0) or
+                                                len(r[2]) == 1 and r[2][0] == ("ref", fld(me, tail_i))) for r in rd), "G6", "buffer_type:reader",
               "the colour information is read by a Reader starting at offset 0 of the variable part (tag offset 32)", i[0].get("span", ""), how="Reader{buffer: &self.buffer, off: 0}", why=str(rd)[:200])
     # Reader primitives
     r8 = F.find(impl_self_name="Reader", name="read_next_u8")
@@ -468,6 +471,14 @@ def buffer_type(ctx, F, fbt):
         ok8 = n is not None and is_elem_read(n, fld(rself, 0), fld(rself, 1))
         w = [N(v) for (_bb, _si, _n, v) in an.writes_through(R, 1)]
         ok8 = ok8 and w == [("bin", "Add", fld(rself, 1), ("c", 1))]
+        if not ok8 and n is not None:
+            # cursor representation: `let (first, rest) = self.rest.split_first().expect(..); self.rest = rest; *first`
+            sf = ("unwrap", ("call", "core::slice::<impl [u8]>::split_first", (fld(rself, 0),)))
+            first = n
+            for _ in range(3):
+                if first[0] == "deref":
+                    first = first[1]
+            ok8 = first == ("fld", sf, 0) and w == [("fld", sf, 1)]
         ctx.check(ok8, "G6", "Reader::read_next_u8", "read_next_u8() returns buffer.get(off) (bounds-checked, panics if unavailable) and advances off by 1", r8[0].get("span", ""),
                   how=G.show(rt)[:120], why=G.show(rt)[:200] + str(w))
         R2 = an.of(F, r16[0])
